@@ -1031,7 +1031,7 @@ def run(ctx):
                  (32, 8, 22, LIGHT_WEIGHTS, 8, 'light'), (64, 6, 10, LIGHT_WEIGHTS, 2, 'light'),
                  (8, 6, 5, HEAVY_WEIGHTS, 6, 'heavy'), (16, 6, 4, HEAVY_WEIGHTS, 3, 'heavy'), (32, 6, 2, HEAVY_WEIGHTS, 1, 'heavy')]
     else:
-        plan += [(8, 8, 22, LIGHT_WEIGHTS, 6, 'light'), (16, 8, 20, LIGHT_WEIGHTS, 4, 'light'),
+        plan += [(8, 8, 22, LIGHT_WEIGHTS, 5, 'light'), (16, 8, 20, LIGHT_WEIGHTS, 3, 'light'),
                  (32, 8, 16, LIGHT_WEIGHTS, 3, 'light'), (64, 5, 6, LIGHT_WEIGHTS, 1, 'light'),
                  (8, 6, 3, HEAVY_WEIGHTS, 3, 'heavy'), (16, 6, 1, HEAVY_WEIGHTS, 1, 'heavy')]
     plan += [(8, 6, 12, MASKED_WEIGHTS, 2, 'masked'), (16, 6, 12, MASKED_WEIGHTS, 2, 'masked'),
@@ -1168,7 +1168,7 @@ def run(ctx):
                     for (e, want) in model_exprs(rng, p, l, k, op, [x], P, 2 if op == 'floordiv' else 3):
                         exprs.append(e)
                         meta.append((l, p, op, [x], P, want, None))
-        cap = ctx.n(1300, 12000)
+        cap = ctx.n(1300, 5000)
         if len(exprs) > cap:
             idx = sorted(rng.sample(range(len(exprs)), cap))
             exprs, meta = [exprs[i] for i in idx], [meta[i] for i in idx]
